@@ -91,6 +91,20 @@ def product():
         for a in vals:
             x, vx = operand_forms(a, "x", False)
             out.append((["un", op, x], vx, "prefix " + op))
+    # stacks of two to four prefix operators (same and mixed) over every value
+    some = [v for i, v in enumerate(vals) if i % 3 == 0 or not (isinstance(v[0], int))]
+    for depth in (2, 3, 4):
+        for ops in itertools.product(["-", "+", "!", "not"], repeat=depth):
+            if depth == 4 and len(set(ops)) > 2:
+                continue
+            for ai, a in enumerate(some):
+                if depth > 2 and (ai + len(ops[0])) % 2:
+                    continue
+                x, vx = operand_forms(a, "x", ai % 2 == 0)
+                t = x
+                for op in reversed(ops):
+                    t = ["un", op, t]
+                out.append((t, vx, "prefix-stack " + " ".join(ops)))
     agg_pool = [(0, 0), (1, 0), (MAXD, 0), (-MAXD, 0), (5, 1), (1, 28), (10 ** 15, 0), (2, 0)] + [("s", "1"), ("z",)]
     for f in ref.BUILTIN_FUNCS:
         for n in range(0, 4):
@@ -141,6 +155,38 @@ def run_shard(desc):
                     t2 = ["stmt", [t, ["num", "5", 0]]]
                     progs.append({"tree": t2, "text": ref.Renderer().render(t2), "vars": vars_})
                     labels.append(label + ";")
+    elif kind == "wide":
+        # aggregates, operator chains and statement sequences of every width 0..40 (and a few long ones) whose running value
+        # leaves the range (or meets a wrongly typed operand) only at a late position
+        while len(progs) < n:
+            w = rnd.choice(list(range(0, 41)) + [64, 65, 100, 257])
+            sc = rnd.choice([0, 0, 1, 5, 28])
+            big = rnd.choice([MAXD, MAXD, MAXD - 1, MAXD // 2 + 1, MAXD // 3, MAXD // 16 + 1, MAXD // 16, 10 ** 27, I64MAX])
+            same = rnd.random() < 0.6
+            sign = rnd.choice([1, 1, -1])
+            vals = [gen.num_lit(sign * big, sc if same else rnd.choice([0, 1, sc])) for _ in range(w)]
+            bad_at = rnd.randrange(w) if w and rnd.random() < 0.2 else None
+            if bad_at is not None:
+                vals[bad_at] = rnd.choice([["str", "1"], ["bool", True], ["ref", "nil"], ["list", []]])
+            form = rnd.choice(["sum", "sum", "mul", "max", "min", "plus", "times", "stmts", "shl"])
+            vars_ = {}
+            if form in ("sum", "max", "min"):
+                t = ["fn", form, vals]
+            elif form == "mul":
+                t = ["fn", "mul", [gen.num_lit(rnd.choice([2, 2, 3, 10, -2]), 0) if bad_at != i else vals[i] for i in range(w)]]
+            elif form in ("plus", "times"):
+                t = vals[0] if w else ["num", "1", 0]
+                for i, v in enumerate(vals[1:]):
+                    t = ["bin", "+" if form == "plus" else "*", t, v if form == "plus" else (gen.num_lit(rnd.choice([2, 3, 10]), 0) if bad_at != i + 1 else v)]
+            elif form == "stmts":
+                op = rnd.choice(["+=", "-=", "*="])
+                t = ["stmt", [["bin", "=", ["ref", "acc"], gen.num_lit(rnd.choice([0, 1, 7]), sc)]] + [["bin", op, ["ref", "acc"], v if op != "*=" else gen.num_lit(rnd.choice([2, 10]), 0)] for v in vals] + [["ref", "acc"]]]
+            else:
+                t = ["num", "1", 0]
+                for i in range(w):
+                    t = ["bin", "<<", t, ["num", str(rnd.choice([1, 1, 2, 7])), 0]]
+            progs.append({"tree": t, "text": ref.Renderer().render(t), "vars": vars_})
+            labels.append("wide " + form)
     else:
         for _ in range(n):
             t = edge_tree(rnd, rnd.randint(1, 3))
@@ -204,6 +250,8 @@ def run(rep, tier):
     per = 1500 if tier == "quick" else 30000
     for i in range(n // per):
         shards.append(("tree", i, 0, per))
+    for i in range(16):
+        shards.append(("wide", i, 0, 250 if tier == "quick" else 8000))
     for part in common.pmap(run_shard, shards):
         rep.merge(part)
     rep.extra["exhaustive"] = True
